@@ -1,5 +1,5 @@
 """property id -> check function(prop, tier, seed, replay) -> exit code"""
-from . import checks_civil, checks_fmt, checks_load, checks_misc, checks_zone
+from . import checks_civil, checks_conc, checks_fmt, checks_load, checks_misc, checks_zone
 
 CHECKS = {}
 for _p in ("C01", "C02", "C03", "C06", "C10", "C11"):
@@ -11,7 +11,9 @@ for _p in ("C15", "C16"):
     CHECKS[_p] = checks_misc.run
 
 CHECKS["C12"] = checks_load.run
+CHECKS["C13"] = checks_conc.run
+CHECKS["C20"] = checks_conc.run
 for _p in ("C07", "C08", "C09", "C18"):
     CHECKS[_p] = checks_fmt.run
 
-PREBUILD = [("asan", "fmtmon"), ("asan", "loadmon"), ("pat", "loadmon"), ("zero", "loadmon"), ("asan", "zonemon"), ("asan", "civilmon"), ("asan", "fixedmon"), ("asan", "posixmon")]
+PREBUILD = [("asan", "concmon"), ("tsan", "concmon"), ("asan", "fmtmon"), ("asan", "loadmon"), ("pat", "loadmon"), ("zero", "loadmon"), ("asan", "zonemon"), ("asan", "civilmon"), ("asan", "fixedmon"), ("asan", "posixmon")]
